@@ -11,6 +11,12 @@ ENGINES = [
 NOT_YET = {}
 TB = "Trusted: Lean kernel; axioms ⊆ {propext, Quot.sound, Classical.choice}; the translator; the harness + canonicalisation; "
 META = {
+    "C08": {
+        "text": "For a non-panicking closure g and every N: generate_spec (calls 0..N-1 in order, result i = g i), map_spec (4 forms), zip_spec (every form pair and both needs_drop branches: call i receives (a[i], b[i]) in ascending order once each), fold_spec, clone_spec, default_spec, and map/zip_form_independent. Proved by induction on the remaining elements for *every* way an operand can be held (Side), so form and branch selection cannot matter; the dispatch (which body serves which form) and the closure bodies are regenerated from lib.rs/sequence.rs/functional.rs/impls.rs. Correspondence: ordered call logs of recording closures on the real crate, drop-tracked and plain element types.",
+        "design_ref": "§5 C08",
+        "note": TB + "modelled not verified: core's Zip/Map/Enumerate iteration order.",
+        "technique": "Lean 4 induction on remaining elements over all operand sides + call-log correspondence",
+    },
     "C07": {
         "text": "Theorems over every N, every answer script (including non-fused sources), every size hint: ok_iff (try_from_iter returns Ok arr iff the hint does not exclude N, the first N answers are Some and equal arr, and answer N is not Some), truthful_complete, polls_le (at most N+1 polls on every path, panics included), pulled_ledger (every pulled item in the result or dropped exactly once), boxed_agrees (the boxed form is the same function of the script), from_iter_panics_iff. The size-hint guards, is_full, the short-circuit order, destination-first zip and finish-after-probe are regenerated from lib.rs/internal.rs/impl_alloc.rs. Correspondence: scripted Iterator with recorded polls on the real crate.",
         "design_ref": "§5 C07",
